@@ -5,6 +5,7 @@ pub mod c03;
 pub mod c04;
 pub mod c11;
 pub mod c12;
+pub mod c13;
 pub mod c14;
 pub mod c18;
 pub mod degenerate;
@@ -133,6 +134,25 @@ pub fn explorer_plan(prop: &str) -> Option<Plan> {
                 required: &["isolation_dumps_compared", "isolation_foreign_entries", "op_clear", "op_change_metric", "builds_ok"],
                 custom_gen: None,
                 rule: "case = explorer history over 2-4 indexes (adjacent numbers, 0/1/255/256/65534/65535, random; per-index metric; ids at the u32 edges); around every operation the raw dump restricted to the other indexes' prefixes is compared byte for byte; non-trivial+distinct = distinct forest shapes with splits of the operated indexes",
+            }
+        }
+        "C13" => {
+            p.checks = Checks { forest: true, id_log: true, chaos: true, build_must_succeed: true, termination: true, accuracy: true, ..Default::default() };
+            p.threads = vec![2, 4, 8, 16];
+            p.n_trees = vec![Some(5), Some(9), Some(20)];
+            p.split_after = vec![Some(1), Some(2), Some(3)];
+            p.rounds = (3, 7);
+            p.ops_per_round = (4, 60);
+            p.max_items = 150;
+            p.memory = vec![None, None, Some(0)];
+            p.keep_opts = 0.9;
+            p.dims = vec![2, 3, 8, 16, 33];
+            Plan {
+                profile: p,
+                cases: (1500, 30000),
+                required: &["forests_checked", "idlog_ids_checked", "idlog_builds_with_concurrent_allocators", "chaos_points_hit", "tr_item_child_to_bucket"],
+                custom_gen: None,
+                rule: "case = explorer history with many trees (5-20), tiny buckets (split_after 1-3) and >=3 incremental rounds, built in local rayon pools of 2-16 threads with seeded scheduling noise at the hook points; the hook logs the ids in use when the generator is created and every id obtained (thread, call site); offline per build: ids unique and disjoint from the used set, then the C01 walker; non-trivial+distinct = distinct thread-order signatures of the id log among builds where >=2 threads allocated, plus distinct forest shapes",
             }
         }
         "C14" => {
